@@ -135,6 +135,24 @@ def cases(seed, tier):
     zras = xr.DataArray(np.array([[0, 1, 1], [2, 0, 255]], dtype="int32"), dims=("y", "x"), attrs={"nodata": 255})
     for order in (("time", "y", "x"), ("y", "x", "time"), ("y", "time", "x"), ("x", "y", "time")):
         gu("zonal.mean(accessor)", "dims=" + ",".join(order), True, lambda b, order=order: np.asarray(zcube.transpose(*order).hdc.zonal.mean(zras, [0, 1, 2])), [])
+    # every accessor operation on a cube stored time first / last / middle (eager), with bounds checking on:
+    # the accessors hand cubes to (y, x, t) / (t, y, x) kernels and must put the axes where those expect them
+    from harness.props import x05
+
+    for op in x05.OPS:
+        if op == "zonal_mean":
+            continue
+        for order in (("time", "y", "x"), ("y", "x", "time"), ("x", "time", "y")):
+            c = {"op": op, "dims": list(order), "lazy": False, "name": "v", "dtype": "int16", "T": 7, "ny": 2, "nx": 3, "w": 3, "nper": 2, "nz": 2,
+                 "dimname": "zones", "zname": "none", "outdtype": "float32", "tid": 1 + len(out)}
+
+            def run_acc(b, c=c):
+                import xarray as xr
+
+                r = x05.call(c, x05.build(c))
+                return tuple(np.asarray(r[n]) for n in sorted(r.data_vars)) if isinstance(r, xr.Dataset) else np.asarray(r)
+
+            gu(f"accessor:{op}", "dims=" + ",".join(order), True, run_acc, [])
     gu("mk_z_score", "scalars", True, lambda b: np.float64(stats.mk_z_score(7, 11.5)), [])
     gu("mk_p_value", "scalars", True, lambda b: tuple(np.float64(v) for v in stats.mk_p_value(1.3)), [])
     gu("brentq", "scalars", True, lambda b: np.float64(stats.brentq(0.6446262296476516, 1.5041278691778537, 0.5278852360624721)), [])
